@@ -444,10 +444,10 @@ def main(tier):
               ('lambda d,m,s: Angle(d,m,s)()', [23, 26, 44.0]), ('lambda d,m,s: Angle(d,m,s)()', [-23, 26.5, 44.0]),
               ('lambda d,m,s: Angle(d,m,s)()', [400.25, 61.5, 3700.5]), ('lambda d,m,s: Angle(d,m,s)()', [0, -5, 30.0]),
               ('lambda x,y: (Angle(x) + Angle(y))()', [350.5, 20.25]), ('lambda x,y: (Angle(x) * y)()', [150.5, 7.0])], ns, ctx_kw={'check_div0': False})
-    # the deeper variants (int operands through 64-bit vectors, reflected subtraction, hours/negation constructors) did not
-    # finish within 30 minutes when the thorough tier was run end to end: both tiers run the validated scope
+    # the deepest variants (int operands through 64-bit vectors, reflected subtraction) did not finish within 30 minutes when the
+    # thorough tier was run end to end and are in no tier; thorough adds the hours / negation constructors and the list form (917 s)
     quick = True
-    jobs = [('ctor', f) for f in (['deg', 'rad', 'abs'] if quick else ['deg', 'rad', 'ra', 'neg', 'abs'])]
+    jobs = [('ctor', f) for f in (['deg', 'rad', 'abs'] if tier == 'quick' else ['deg', 'rad', 'ra', 'neg', 'abs'])]
     jobs.append(('topos', 0))
     ops = ['add', 'sub', 'mul', 'div', 'radd', 'rsub', 'rmul', 'rdiv', 'iadd', 'isub', 'imul', 'idiv']
     items = [(op, bt) for op in ops for bt in (('Angle', 'float', 'int') if not op.startswith('r') else ('float', 'int'))]
@@ -457,7 +457,7 @@ def main(tier):
         items = [it for it in items if it[1] != 'int' and it[0] != 'rsub']
     jobs += [('op', it) for it in items]
     jobs.append(('views', 0))
-    jobs += [('dms', f) for f in (['args', 'tuple', 'two'] if quick else ['args', 'tuple', 'list', 'two'])]
+    jobs += [('dms', f) for f in (['args', 'tuple', 'two'] if tier == 'quick' else ['args', 'tuple', 'list', 'two'])]
     jobs.append(('dms_sum', 0))
     # slowest first, one pool for everything
     order = {'topos': 0, 'ctor': 1, 'op': 2, 'views': 3, 'dms': 4, 'dms_sum': 5}
